@@ -1481,6 +1481,9 @@ func (w *World) runScript() {
 		w.stepExpiry(now)
 		switch st.Do {
 		case "advance":
+			if len(st.Exp) > 0 {
+				w.tr.Emit("env", "script_at", KV{"step": si, "exp": st.Exp})
+			}
 			for w.tr.NowUs() < st.ToUs {
 				w.sleepEventOr(st.ToUs - w.tr.NowUs())
 				w.wait()
